@@ -19,6 +19,7 @@ THEOREMS = ["C18_refines", "C18_balanced", "C18_once", "C18_identity", "C18_dele
             "C18_terminates", "C18_keep_total",
             "C18_deep", "C18_local", "C18_quiet_unchanged", "C18_quiet_chain",
             "C18_member_delete", "C18_member_skip", "C18_member_replace",
+            "C18_no_crash", "C18_edit_total", "C18_transforms_total", "C18_crash_conditions_needed",
             "C18_oracle_reflects", "C18_oracle_sound"]
 AXIOMS_OK = []
 RUN_MODULE = "Run.C18run Lang.VisitorModel"
